@@ -13,7 +13,8 @@ prop("C10",
      residual="decided per call: NC_findattr (bounded), NC_aput, SDIputattr/SDsetattr/SDattrinfo/SDreadattr over stubbed allocation (c10_attr_ext.py), "
               "one attribute through hdf_write_attr then hdf_read_attrs over a ghost Vdata header (bounded), GRsetattr/GRattrinfo/GRgetattr in memory "
               "(bounded), the value count SDgetdimscale asks the I/O layer for, VSsetattr on an existing attribute (bounded, one attribute).  "
-              "NOT decided: whole-API histories, the predefined attributes built on SDsetattr, dimension scales beyond that, the rest of vattr.c (Vsetattr, creation path, lookups), "
+              "Round 3: valid range / fill value / calibration set-get pairs with round trips (c10_sdmeta.py, real SDIputattr inlined), vattr.c lookups, info, get and Vsetattr over a ghost table of attribute Vdatas (c10_vattr*.py, bounded).  "
+              "NOT decided: whole-API histories, the string-valued predefined attributes and dimension strings/names, dimension scales beyond that, VSsetattr's creation path, "
               "name/index/ref bijections, the real V layer under the persistence path, reopen",
      assumptions=["A-XDR: the XDR layer is not verified (xdr_cdf stubbed)",
                   "A-NC-ALLOC: NC_new_string/NC_new_array/NC_re_array/NC_incr_array/NC_free_* are stubs that log their arguments; "
